@@ -157,4 +157,35 @@ Proof.
   - subst e1 e2. cbn. lia.
 Qed.
 
+(* ---- the bound 2 <= max_iter is sharp: with ONE pass the answer is already the exact root, but it is
+        reported as Err unless the residual of the GUESS was within tol (the test looks at f(x_k), the
+        value returned is x_{k+1}) ---- *)
+Lemma newton_sys_affine_one_pass_lemma x0 : length x0 = cols M ->
+  exists x evs mr, norm_inf O (aff O M c0 x0) = Ok mr /\ is_root O M c0 x /\
+    newton_sys O (mkCfg tl dl 1 x0) f = Ok ((if leb mr tl then NOk x else NErr x), evs).
+Proof.
+  intros L0. destruct (sys_pass_affine_total x0 L0) as (x1 & b1 & e1 & E1).
+  destruct (sys_pass_affine O FL M c0 tl dl HW Hsq Hd Hlt Hle solve_basic_sound_holds _ _ _ _ L0 E1) as (L1 & R1 & _).
+  pose proof (sys_step_inv O _ _ _ _ _ _ _ E1) as (fv & mr & J & jev & dx & Ef & En & _ & _ & _ & _ & Eb & _).
+  unfold f in Ef. injection Ef as <-.
+  exists x1, ([] ++ e1), mr. split; [exact En|]. split; [exact R1|].
+  unfold newton_sys. cbn [tol delta max_iter guess nloop]. fold f. rewrite E1. cbn [bind].
+  rewrite <- Eb. destruct b1; reflexivity.
+Qed.
+
 End Affine2.
+
+(* ---- an empty system panics: the residual norm reads f(x)[0] (Vector::norm_inf: self.vec[0]) ---- *)
+Lemma newton_sys_empty_panics_lemma (O : NOps) tl dl n (f : list (NA O) -> res (list (NA O))) :
+  f [] = Ok [] -> newton_sys O (mkCfg tl dl (S n) []) f = Panic Index.
+Proof.
+  intros Hf. unfold newton_sys. cbn [tol delta max_iter guess nloop]. unfold sys_step.
+  rewrite Hf. reflexivity.
+Qed.
+
+Lemma newton_sysjac_empty_panics_lemma (O : NOps) tl dl n (f : list (NA O) -> res (list (NA O))) jac :
+  f [] = Ok [] -> newton_sysjac O (mkCfg tl dl (S n) []) f jac = Panic Index.
+Proof.
+  intros Hf. unfold newton_sysjac. cbn [tol delta max_iter guess nloop]. unfold sysjac_step.
+  rewrite Hf. reflexivity.
+Qed.
